@@ -105,8 +105,20 @@ class C18(hc.PProp):
                     limit = nxt[0] if nxt else 1 << 62
                     ps = [p[0] for p in sc.psnd if c1[0] < p[0] < limit]
                     end_seq = ps[-1] if ps else c1[0]
+            def fetch_read_end(rule_seq):
+                # seq at which squid had read the last byte the origin sent in answer to the rule triggered at rule_seq
+                for sc in hist.server_conns():
+                    if any(x[0] == rule_seq for x in sc.rules):
+                        nxt = [x[0] for x in sc.rules if x[0] > rule_seq]
+                        limit = nxt[0] if nxt else 1 << 62
+                        upto = sum(p[3] for p in sc.psnd if p[0] < limit)
+                        got = hist.squid_read_seq(sc, upto)
+                        return got[0] if got else 1 << 62
+                return 0
             aborted = bool(url.get('abort'))
-            inwin = [r for r in rs if c1[0] < r.seq_send < (end_seq or 0) and not (r.step and r.step.get('phase') == 2)]
+            rd_end = fetch_read_end(c1[0])
+            # in the window = squid had read the whole request after the origin got the first one and before squid had read the end of the origin's answer
+            inwin = [r for r in rs if r.arrived and c1[0] < r.seq_send and r.arrived[0] < min(end_seq or 0, rd_end) and not (r.step and r.step.get('phase') == 2)]
             first = [r for r in rs if any(c['seq'] == c1[0] for c in r.contacts)]
             if len(inwin) >= 1:
                 stats['bursts_judged'] += 1
@@ -129,7 +141,8 @@ class C18(hc.PProp):
                             limit = nxt[0] if nxt else 1 << 62
                             ps = [p[0] for p in sc.psnd if c2[0] < p[0] < limit]
                             end2 = ps[-1] if ps else c2[0]
-                    inwin2 = [r for r in rs2 if c2[0] < r.seq_send < end2]
+                    rd_end2 = fetch_read_end(c2[0])
+                    inwin2 = [r for r in rs2 if r.arrived and c2[0] < r.seq_send and r.arrived[0] < min(end2, rd_end2)]
                     if inwin2:
                         stats['reval_bursts_judged'] = stats.get('reval_bursts_judged', 0) + 1
                     for r in inwin2:
